@@ -247,6 +247,52 @@ def check(ctx, replay=None):
         ctx.cov["distinct_nontrivial"] += 1
         if res is not None and (res["rc"] == 0 or res["marker"]):
             viol("the policy path is %s: %s" % (what, "the target was started" if res["marker"] else "exit status 0"), res, {"policy": "(none: -policy %s)" % path})
+    # the policy file is the file the PATH names, however the path is spelled: through a symbolic link to a directory followed by "..",
+    # (the kernel resolves that to the parent of the link's TARGET; cleaning the path as text gives another directory - where a decoy lies),
+    # through a link to the file, with doubled separators and "." components, relative to the working directory
+    deep = os.path.join(scratch, "deep", "a", "b")
+    os.makedirs(deep, exist_ok=True)
+    for pth in (scratch, os.path.join(scratch, "deep"), os.path.join(scratch, "deep", "a"), deep):
+        os.chmod(pth, 0o755)
+    decoy = "seccomp:\n  default_action: allow\n  syscalls:\n  - action: errno\n    names:\n    - vserver\n"
+    for name, text in ((os.path.join(scratch, "deep", "a", "real.yml"), GOOD), (os.path.join(scratch, "real.yml"), decoy), (os.path.join(scratch, "missing.yml"), GOOD)):
+        with open(name, "w") as f:
+            f.write(text)
+        os.chmod(name, 0o644)
+    for link, to in ((os.path.join(scratch, "conf"), deep), (os.path.join(scratch, "linkfile.yml"), os.path.join(scratch, "deep", "a", "real.yml"))):
+        if not os.path.islink(link):
+            os.symlink(to, link)
+    real = os.path.join(scratch, "deep", "a", "real.yml")
+    nspell = 0
+    for what, path, exists in (("a link to a directory followed by ..", os.path.join(scratch, "conf") + "/../real.yml", True),
+                               ("a link to a directory followed by .. (no such file there; one of that name where the cleaned text points)", os.path.join(scratch, "conf") + "/../missing.yml", False),
+                               ("a symbolic link to the file", os.path.join(scratch, "linkfile.yml"), True),
+                               ("doubled separators and . components", real.replace("/deep/", "//deep/./"), True),
+                               ("a path relative to the working directory", real.lstrip("/"), True),
+                               ("a relative path through .. components", "usr/../" + real.lstrip("/"), True)):
+        idx += 1
+        res = run_sandbox(d, scratch, "none", idx, policy_path=path)
+        if res is None:
+            ctx.skip("sandbox run timed out")
+            continue
+        nspell += 1
+        ctx.cov["evaluations"] += 1
+        ctx.cov["distinct_nontrivial"] += 1
+        if not exists:
+            if res["rc"] == 0 or res["marker"]:
+                viol("the policy path is spelled through %s: %s" % (what, "the target was started" if res["marker"] else "exit status 0"), res, {"policy": "(none: -policy %s)" % path})
+            continue
+        if res["rc"] != 0 or not res["marker"]:
+            ctx.note("valid policy named through %s: the sandbox did not run the target (rc %d): %s" % (what, res["rc"], res["stderr"][-120:]))
+            continue
+        try:
+            got = [q["errno"] for q in json.loads(res["stdout"].strip().splitlines()[-1])["probes"]]
+        except Exception:
+            got = None
+        if got != [1, 1, 38, 1, 38]:
+            viol("the policy path is spelled through %s: the target does not observe the decisions of the file the path names (probes %s, expected [1, 1, 38, 1, 38])" % (what, got), res,
+                 {"policy": "(-policy %s) = " % path + GOOD})
+    ctx.cov["policy_path_spellings"] = nspell
     for where, text in UNKNOWN_VARIANTS.items():
         idx += 1
         res = run_sandbox(d, scratch, "none", idx, policy_text=text)
